@@ -38,6 +38,8 @@ def generate(rnd, tier):
             items.insert(rnd.randrange(j + 1, len(items) + 1), ["list", rnd.random() < 0.5, 2, None, rnd.choice([1, 3]), rnd.choice([None, ["", ") ", 1]]), [["text", "x"], ["upref", j]]])
         cases.append(with_cc({"op": "tree", "tree": ["window", rnd.choice([None, "", "Title", "a long title of the window that wraps"]), items],
                               "ops": [["render", rnd.choice([1, 3, 8, 20, 40, 80])]] * rnd.choice([1, 2, 3])}))
+    # very long contents: thousands of pages (a pager must not depend on the size of the content, e.g. through recursion)
+    cases += [{"op": "paging", "n": 2500, "h": 4}, {"op": "paging", "n": 1300, "h": 3}, {"op": "paging", "n": 30000, "h": 30}]
     # whole-screen draws through the real scheduler: long contents on low screens, drawn several times (refresh key, rejected lines, return from a pushed screen)
     for _ in range(300 if tier == "quick" else 3000):
         nscr = rnd.randint(1, 2)
@@ -48,7 +50,14 @@ def generate(rnd, tier):
                                 scripts={"input": [{"ret": rnd.choice(["REDRAW", "r", "DISCARDED", "PROCESSED", "CLOSE"])} for _ in range(8)]},
                                 hidden=rnd.random() < 0.25))            # a screen that hides what the user types (password): its pages are still asked for visibly
         init = [["schedule", i, None] for i in range(nscr)]
-        cases.append(_s.with_cc(dict(op="machine", mode="paging", width=rnd.choice([80, 40, 12]), screens=screens, handlers=[], init=init,
+        handlers = []
+        if rnd.random() < 0.3:
+            # the screen lets its requests bypass the concurrency check and a background signal asks for a redraw while its prompt is waiting: the pages of the second
+            # draw are still separated by continue requests that each consume a line
+            for s_ in screens: s_["skip_check"] = True
+            handlers = [dict(cls="U0", hid=0, data=None, scripts=[[["redraw_sig", 0]], [["redraw_sig", 0]], []])]
+            init = init + [["enq", "U0", 1, None, 700 + len(cases)]] + ([["enq", "U0", 2, None, 90700 + len(cases)]] if rnd.random() < 0.4 else [])
+        cases.append(_s.with_cc(dict(op="machine", mode="paging", width=rnd.choice([80, 40, 12]), screens=screens, handlers=handlers, init=init,
                                     stdin=[rnd.choice(["", "", "", "r", "x", "c"]) for _ in range(rnd.randint(2, 30))], quit_cb=None, quit_screen=None,
                                     exc_handler=False, run_empty=False, deliver_at=[])))
     return cases
@@ -114,7 +123,9 @@ def monitor(case, obs):
     from harness.impl.render import build
     if case["op"] == "paging":
         n, h = case["n"], case["h"]
-        if isinstance(obs, dict): return None
+        if isinstance(obs, dict):
+            if obs.get("err") not in (None, "OutOfDomain"): return "printing %d lines on a screen of height %d raised %s" % (n, h, obs["err"])
+            return None
         lines = [e for e in obs if e != -1]
         if lines != [str(i) for i in range(n)]: return "lines printed %r, expected every line once in order" % lines[:10]
         real = h - 2
